@@ -492,7 +492,8 @@ func BackrefRegex(backrefCache *sync.Map, input string, groups []string) (*regex
 			return s
 		}
 		// concatenate the leading \\\\ which are already escaped to the quoted match.
-		return rematch[1][:len(rematch[1])-1] + regexp.QuoteMeta(groups[n])
+		// The group's text stands as one unit: a quantifier after the back-reference applies to all of it.
+		return rematch[1][:len(rematch[1])-1] + "(?:" + regexp.QuoteMeta(groups[n]) + ")"
 	})
 	if err == nil {
 		_, err = syntax.Parse(pattern, syntax.Perl)
